@@ -380,7 +380,13 @@ void MML_Input::parse_mml_track()
 		else if(c == '{' && !conditional_block)
 			conditional_block_begin();
 		else if(c == '%')
+		{
+			// Set reference to the '%' itself
+			unget(c);
+			track->set_reference(get_reference());
+			get();
 			track->add_event(Event::PLATFORM, expect_parameter());
+		}
 		else if(c == 0)
 			return;
 		else
